@@ -55,6 +55,9 @@ Ids     == {"missing", "empty", "malformed", "zero", "a", "b"}
 Hdrs    == {"absent", "own", "foreign"}
 Protos  == {"h1", "h2c"}
 Bodies  == {"empty", "truncated", "garbage", "valid", "oversized"}
+\* /tx additionally gets a full snapshot file (first transaction ID 1) with an intact header and one
+\* damaged page: the handler learns that the file is bad only after it has started to store it
+TxBodies == Bodies \cup {"snapdamaged"}
 Small   == {"empty", "garbage"}     \* body classes sent to endpoints that take no body
 
 VARIABLES node,   \* which node of the test cluster is addressed: its initial role (constant in a behaviour)
@@ -80,7 +83,7 @@ Endpoints == {"stream", "tx", "halt", "handoff", "promote", "import", "export", 
 (* ---- the enumerated request classes ---- *)
 Requests ==
        {R("stream", "POST", pc, "na", h, p, b) : pc \in {"missing", "unknown", "valid"}, h \in Hdrs, p \in Protos, b \in Bodies}
-  \cup {R("tx", "POST", pc, "na", h, p, b) : pc \in PCs, h \in Hdrs, p \in Protos, b \in Bodies}
+  \cup {R("tx", "POST", pc, "na", h, p, b) : pc \in PCs, h \in Hdrs, p \in Protos, b \in TxBodies}
   \cup {R("halt", m, pc, id, h, p, "empty") : m \in {"POST", "DELETE"}, pc \in PCs, id \in Ids, h \in Hdrs, p \in Protos}
   \cup {R("halt", m, pc, "a", "foreign", p, "garbage") : m \in {"POST", "DELETE"}, pc \in PCs, p \in Protos}
   \cup {R("handoff", "POST", pc, "na", h, p, b) : pc \in PCs, h \in Hdrs, p \in Protos, b \in Small}
